@@ -1,10 +1,214 @@
-import PPLV.Interval.Model
+import PPLV.Interval.ProofsSet
+import PPLV.Interval.ProofsDiv
+import Mathlib.Tactic.NormNum
+/-!
+# C12 — interval arithmetic encloses every concrete result
+
+Statements about the code-shaped model `PPLV/Interval/Model.lean` of `Boundary_NS` and `Interval`
+(`/repo/src/Boundary_defs.hh`, `Interval_inlines.hh`, `Interval_defs.hh`), for **every** policy
+(`store_special`, `store_open`, `may_contain_infinity`, `check_inexact`, `may_be_empty`) and
+**every** sound directed rounding `R` (`down q ≤ q ≤ up q`, overflow to the infinity of the
+direction): exact (`mpq_class`), floor/ceiling (`mpz_class`), binary floating point (`double`).
+An interval denotes its set of rational members `Iv.mem p x`, which reads the OPEN bit through
+the policy as the class does.
+
+The unchanged tree violates the enclosure for `mul_assign` (defect 3) and `wrap_assign`
+(defect 12): `mul_encloses_fails`, `wrap_encloses_fails` are the negations on the witnesses,
+`mul_encloses_partial` is the enclosure for the code as written under the exact side condition
+that defect 3 does not act (`d3Differs = false`), and `op_encloses` is the enclosure for all five
+arithmetic operations with the candidate's info bits copied (`d3 = false`).
+-/
+set_option linter.unusedVariables false
+set_option linter.unnecessarySeqFocus false
+set_option linter.unusedSimpArgs false
 namespace C12
 open PPLV.Interval
 open PPLV.Interval.ExtRat (ninf fin pinf)
 
-/-- defect 3 witness: `(−1,2]·[−3,1)` as written is `(−6,3)` -/
-theorem mul_witness_value :
-    mulAssign true Policy.rational Rounding.id ⟨⟨fin (-1), true⟩, ⟨fin 2, false⟩⟩ ⟨⟨fin (-3), false⟩, ⟨fin 1, true⟩⟩
-      = ⟨⟨fin (-6), true⟩, ⟨fin 3, true⟩⟩ := by decide +kernel
+/-- division is defined for a non-zero divisor -/
+def defined : IvOp → Rat → Rat → Prop
+  | .div, _, b => b ≠ 0
+  | _, _, _ => True
+
+/-! ## the three boundary types are instances of the abstract rounding -/
+
+theorem rounding_exact_sound : Rounding.Sound Rounding.id := Rounding.id_sound
+theorem rounding_integer_sound : Rounding.Sound Rounding.int := Rounding.int_sound
+theorem rounding_float_sound (prec : Nat) (emin emax : Int) : Rounding.Sound (Rounding.float prec emin emax) :=
+  Rounding.float_sound prec emin emax
+
+example : Rounding.Sound Rounding.double := rounding_float_sound 53 (-1022) 1023
+
+/-! ## enclosure: `a ∈ I → b ∈ J → a ⋆ b ∈ op I J` -/
+
+/-- Enclosure for negation, sum, difference, product (all nine sign cases, bits of the chosen
+candidate copied: `d3 = false`) and quotient (all six cases; universe when the divisor straddles
+zero), for every policy and every sound rounding. -/
+theorem op_encloses (pol : Policy) (R : Rounding) (hR : R.Sound) (op : IvOp) (I J : Iv) (a b : Rat)
+    (ha : I.mem pol a) (hb : J.mem pol b) (hd : defined op a b) :
+    (IvOp.run false pol R op I J).mem pol (op.exact a b) := by
+  cases op
+  · exact negAssign_encloses hR ha
+  · exact addAssign_encloses hR ha hb
+  · exact subAssign_encloses hR ha hb
+  · exact mulAssign_encloses hR ha hb
+  · exact divAssign_encloses hR ha hb hd
+
+/-- non-vacuity: `(−1,2]·[−3,1)` contains `2·(−3) = −6` once the bits are copied -/
+example : (IvOp.run false Policy.rational Rounding.id .mul ⟨⟨fin (-1), true⟩, ⟨fin 2, false⟩⟩
+    ⟨⟨fin (-3), false⟩, ⟨fin 1, true⟩⟩).mem Policy.rational (-6) := by
+  have := op_encloses Policy.rational Rounding.id rounding_exact_sound .mul
+    ⟨⟨fin (-1), true⟩, ⟨fin 2, false⟩⟩ ⟨⟨fin (-3), false⟩, ⟨fin 1, true⟩⟩ 2 (-3)
+    (by simp [Iv.mem, lowerOk, upperOk, getOpen, Policy.rational] <;> norm_num)
+    (by simp [Iv.mem, lowerOk, upperOk, getOpen, Policy.rational] <;> norm_num) trivial
+  have e : IvOp.exact .mul (2 : Rat) (-3) = -6 := by simp [IvOp.exact]; norm_num
+  rw [e] at this
+  exact this
+
+/-- The code **as written** (`d3 = true`): the enclosure for the product fails.
+`(−1,2]·[−3,1)` is computed as `(−6,3)`, which loses `2·(−3) = −6` (defect 3). -/
+theorem mul_encloses_fails :
+    ¬ (∀ (I J : Iv) (a b : Rat), I.mem Policy.rational a → J.mem Policy.rational b →
+        (mulAssign true Policy.rational Rounding.id I J).mem Policy.rational (a * b)) := by
+  intro h
+  have hv : mulAssign true Policy.rational Rounding.id ⟨⟨fin (-1), true⟩, ⟨fin 2, false⟩⟩
+      ⟨⟨fin (-3), false⟩, ⟨fin 1, true⟩⟩ = ⟨⟨fin (-6), true⟩, ⟨fin 3, true⟩⟩ := by decide +kernel
+  have := h ⟨⟨fin (-1), true⟩, ⟨fin 2, false⟩⟩ ⟨⟨fin (-3), false⟩, ⟨fin 1, true⟩⟩ 2 (-3)
+    (by simp [Iv.mem, lowerOk, upperOk, getOpen, Policy.rational] <;> norm_num)
+    (by simp [Iv.mem, lowerOk, upperOk, getOpen, Policy.rational] <;> norm_num)
+  rw [hv] at this
+  simp [Iv.mem, lowerOk, upperOk, getOpen, Policy.rational] at this
+  norm_num at this
+
+/-- the witness is a case where defect 3 acts -/
+example : d3Differs Policy.rational Rounding.id ⟨⟨fin (-1), true⟩, ⟨fin 2, false⟩⟩
+    ⟨⟨fin (-3), false⟩, ⟨fin 1, true⟩⟩ = true := by decide +kernel
+
+/-- The code as written encloses the product whenever defect 3 does not act: outside the case
+"both operands straddle zero", or when every replaced candidate has the OPEN bit of the candidate
+that replaces it.  (`_partial`: the missing part is exactly `d3Differs = true`, where
+`mul_encloses_fails` shows the clause is false.) -/
+theorem mul_encloses_partial (pol : Policy) (R : Rounding) (hR : R.Sound) (I J : Iv) (a b : Rat)
+    (hd : d3Differs pol R I J = false) (ha : I.mem pol a) (hb : J.mem pol b) :
+    (mulAssign true pol R I J).mem pol (a * b) :=
+  mulAssign_encloses_asWritten hR hd ha hb
+
+/-- where defect 3 does not act the code as written *is* the repaired code -/
+theorem mul_asWritten_eq_repaired (pol : Policy) (R : Rounding) (I J : Iv)
+    (hd : d3Differs pol R I J = false) : mulAssign true pol R I J = mulAssign false pol R I J :=
+  mulAssign_d3_eq hd
+
+/-- non-vacuity: a straddle/straddle pair on which defect 3 does not act -/
+example : d3Differs Policy.rational Rounding.id ⟨⟨fin (-1), false⟩, ⟨fin 2, false⟩⟩
+    ⟨⟨fin (-3), false⟩, ⟨fin 1, false⟩⟩ = false := by decide +kernel
+
+/-- the uniform statement for the code as written, under the side condition -/
+theorem op_encloses_partial (pol : Policy) (R : Rounding) (hR : R.Sound) (op : IvOp) (I J : Iv) (a b : Rat)
+    (hd3 : op = .mul → d3Differs pol R I J = false)
+    (ha : I.mem pol a) (hb : J.mem pol b) (hd : defined op a b) :
+    (IvOp.run true pol R op I J).mem pol (op.exact a b) := by
+  cases op
+  · exact negAssign_encloses hR ha
+  · exact addAssign_encloses hR ha hb
+  · exact subAssign_encloses hR ha hb
+  · exact mulAssign_encloses_asWritten hR (hd3 rfl) ha hb
+  · exact divAssign_encloses hR ha hb hd
+
+/-! ## emptiness -/
+
+/-- `is_empty()` answers `true` exactly when the interval has no rational member (bounds on their
+own sides, which `OK()` demands of every interval) -/
+theorem is_empty_iff (pol : Policy) (I : Iv) (hlo : I.lo.value ≠ pinf) (hhi : I.hi.value ≠ ninf) :
+    isEmpty pol I = true ↔ ∀ a, ¬ I.mem pol a := isEmpty_iff hlo hhi
+
+example : isEmpty Policy.rational ⟨⟨fin 2, true⟩, ⟨fin 2, false⟩⟩ = true := by decide +kernel
+
+/-- an empty operand gives the empty result (policies that may be empty) -/
+theorem op_empty (pol : Policy) (R : Rounding) (d3 : Bool) (op : IvOp) (I J : Iv)
+    (hpe : pol.mayBeEmpty = true)
+    (hI : I.lo.value ≠ pinf ∧ I.hi.value ≠ ninf) (hJ : J.lo.value ≠ pinf ∧ J.hi.value ≠ ninf)
+    (h : (∀ a, ¬ I.mem pol a) ∨ (op ≠ .neg ∧ ∀ b, ¬ J.mem pol b)) :
+    ∀ c, ¬ (IvOp.run d3 pol R op I J).mem pol c := by
+  intro c
+  have eI : (∀ a, ¬ I.mem pol a) → checkEmptyArg pol I = true := fun h => by
+    unfold checkEmptyArg; rw [hpe]; simpa using (isEmpty_iff hI.1 hI.2).mpr h
+  have eJ : (∀ a, ¬ J.mem pol a) → checkEmptyArg pol J = true := fun h => by
+    unfold checkEmptyArg; rw [hpe]; simpa using (isEmpty_iff hJ.1 hJ.2).mpr h
+  rcases h with h | ⟨hn, h⟩
+  · cases op <;> simp [IvOp.run, negAssign, addAssign, subAssign, mulAssign, divAssign, eI h] <;>
+      exact not_mem_empty pol c
+  · cases op <;> simp [IvOp.run, negAssign, addAssign, subAssign, mulAssign, divAssign, eJ h] at hn ⊢ <;>
+      exact not_mem_empty pol c
+
+/-- and non-empty operands give a non-empty result (a consequence of the enclosure) -/
+theorem op_nonempty (pol : Policy) (R : Rounding) (hR : R.Sound) (op : IvOp) (I J : Iv) (a b : Rat)
+    (ha : I.mem pol a) (hb : J.mem pol b) (hd : defined op a b) :
+    isEmpty pol (IvOp.run false pol R op I J) = false :=
+  isEmpty_of_mem (op_encloses pol R hR op I J a b ha hb hd)
+
+/-! ## set operations -/
+
+theorem assign_copy_encloses (pol : Policy) (R : Rounding) (hR : R.Sound) (I : Iv) (a : Rat)
+    (h : I.mem pol a) : (assign pol R pol I).mem pol a := assign_encloses hR h
+
+/-- the join contains both operands -/
+theorem join_encloses (pol : Policy) (R : Rounding) (hR : R.Sound) (I J : Iv) (a : Rat)
+    (h : I.mem pol a ∨ J.mem pol a) : (joinAssign pol R I J).mem pol a := joinAssign_encloses hR h
+
+/-- … and, with exact rounding, nothing below both lower bounds or above both upper bounds: it is
+the interval hull of the union -/
+theorem join_exact (pol : Policy) (I J : Iv) (a : Rat) (h : (joinAssign pol Rounding.id I J).mem pol a) :
+    (lowerOk pol I.lo a ∨ lowerOk pol J.lo a) ∧ (upperOk pol I.hi a ∨ upperOk pol J.hi a) :=
+  joinAssign_exact_bounds h
+
+/-- the intersection is contained in the result -/
+theorem intersect_encloses (pol : Policy) (R : Rounding) (hR : R.Sound) (I J : Iv) (a : Rat)
+    (hI : I.mem pol a) (hJ : J.mem pol a) : (intersectAssign pol R I J).mem pol a :=
+  intersectAssign_encloses hR hI hJ
+
+/-- with exact rounding `intersect_assign` is exactly the intersection (openness included) -/
+theorem intersect_exact (pol : Policy) (I J : Iv) (a : Rat) :
+    (intersectAssign pol Rounding.id I J).mem pol a ↔ I.mem pol a ∧ J.mem pol a := intersectAssign_exact
+
+example : (intersectAssign Policy.rational Rounding.id ⟨⟨fin 0, false⟩, ⟨fin 2, true⟩⟩
+    ⟨⟨fin 1, true⟩, ⟨pinf, true⟩⟩).mem Policy.rational (3 / 2) := by
+  rw [intersect_exact]
+  constructor <;> simp [Iv.mem, lowerOk, upperOk, getOpen, Policy.rational] <;> norm_num
+
+/-- the set difference is contained in the result of `difference_assign` -/
+theorem difference_encloses (pol : Policy) (R : Rounding) (hR : R.Sound) (I J : Iv) (a : Rat)
+    (hI : I.mem pol a) (hJ : ¬ J.mem pol a) : (differenceAssign pol R I J).mem pol a :=
+  differenceAssign_encloses hR hI hJ
+
+/-- `contains` answering `true` is the inclusion of the sets -/
+theorem contains_true (pol : Policy) (I J : Iv) (h : contains pol I J = true) (a : Rat)
+    (hJ : J.mem pol a) : I.mem pol a := contains_sound h hJ
+
+/-- `is_disjoint_from` answering `true`: no common member -/
+theorem is_disjoint_true (pol : Policy) (I J : Iv) (h : isDisjointFrom pol I J = true) (a : Rat) :
+    ¬ (I.mem pol a ∧ J.mem pol a) := isDisjointFrom_sound h
+
+/-! ## wrapping (defect 12) -/
+
+/-- `[0,256]` wrapped to unsigned 8 bits inside the quadrant `[0,255]` is computed as `{0}` by the
+code as written: `5 ∈ [0,256]` wraps to `5 ∈ [0,255]`, which is lost. -/
+theorem wrap_encloses_fails :
+    ¬ (∀ (I ref : Iv) (a : Int), I.mem Policy.rational (a : Rat) →
+        ref.mem Policy.rational (umod2exp (a : Rat) 8) →
+        (wrapAssign true Policy.rational Rounding.id I 8 .unsigned ref).mem Policy.rational (umod2exp (a : Rat) 8)) := by
+  intro h
+  have hv : wrapAssign true Policy.rational Rounding.id ⟨⟨fin 0, false⟩, ⟨fin 256, false⟩⟩ 8 .unsigned
+      ⟨⟨fin 0, false⟩, ⟨fin 255, false⟩⟩ = ⟨⟨fin 0, false⟩, ⟨fin 0, false⟩⟩ := by decide +kernel
+  have hm : umod2exp ((5 : Int) : Rat) 8 = 5 := by decide +kernel
+  have := h ⟨⟨fin 0, false⟩, ⟨fin 256, false⟩⟩ ⟨⟨fin 0, false⟩, ⟨fin 255, false⟩⟩ 5
+    (by simp [Iv.mem, lowerOk, upperOk, getOpen, Policy.rational] <;> norm_num)
+    (by rw [hm]; simp [Iv.mem, lowerOk, upperOk, getOpen, Policy.rational] <;> norm_num)
+  rw [hv, hm] at this
+  simp [Iv.mem, lowerOk, upperOk, getOpen, Policy.rational] at this
+  norm_num at this
+
+/-- with the test repaired (`u ≥ lower`) the same input gives the whole quadrant -/
+example : wrapAssign false Policy.rational Rounding.id ⟨⟨fin 0, false⟩, ⟨fin 256, false⟩⟩ 8 .unsigned
+    ⟨⟨fin 0, false⟩, ⟨fin 255, false⟩⟩ = ⟨⟨fin 0, false⟩, ⟨fin 255, false⟩⟩ := by decide +kernel
+
 end C12
